@@ -62,3 +62,23 @@ p["trusted_base"] += _SYS_TB
 p["full_statement_status"] = "choice clause proved; copy contact equality via C03Exec (copyStage); invisibility: oracle-checked two-run comparison, theorem pending; fails when only the copy request cannot be built (finding C20-a)"
 p["modules"] += ["RrProofs.Props.C03Exec"]
 p["theorems"] += [T("Props.C03Exec.routeOnce_intact", "full", "the copy destination receives the same method and body as the proxy destination (copyStage)")]
+
+p = _ensure("C04", "Routing-secret firewall between internal and external destinations")
+p["streams"] += [S("sysu", 3000, 40000)]
+p["trivial_labels"] = list(p.get("trivial_labels", [])) + ["outside-S1:flag", "rules-rejected"]
+p["rule"] += _SYS_RULE + "; oracle Spec.Sys.holdsC04 on EVERY contact of every request (proxy, copy, repeat, fallback): destination class from the rule whose destination host was contacted vs presence/validity of the three headers"
+p["trusted_base"] += _SYS_TB
+
+# System histories on a cache-enabled rule (stream sysc): history oracles of C05 C07 C08 C10 (reference cache, DESIGN Appendix E)
+_SYSC_RULE = (" | sysc: histories of 5-10 ops {request (GET/HEAD/POST; Accept-Encoding, Authorization, Origin, If-None-Match, Cookie), advance clock (around 5/30/60 s boundaries), "
+              "change origin answer (status 200/201/301/403/404/410/500, Cache-Control spellings incl. no-store/private/no-cache/max-age=0/s-maxage=0/HTAB/duplicates/upper case, ETag, repeated and bracketed header values, chunked/length framing, empty bodies)} "
+              "over two resources on a cache-enabled rule (force_revalidate 0/20) against the real server + disk cache + scripted origin with the injected clock; every origin body is unique, so the oracle knows which origin answer each client body is; "
+              "oracles on the implementation: C05 a filling/passing response mirrors the current origin answer, a hit has the status/framing of the answer it replays; C07 hit headers = stored response's headers up to the documented differences; "
+              "C08 served without contact only while fresh (Spec.C08.isFresh) and, conversely, not contacted while the key's entry is fresh; C10 a hit never replays an exchange that was uncacheable (directive, Authorization, method)")
+for _pid, _title in (("C05", "Every request gets one complete, well-formed response mirroring the origin"), ("C07", "A cache hit replays exactly the response that was stored"),
+                     ("C08", "Stored responses are served only while fresh, and then without origin traffic"), ("C10", "Responses that must not be cached are never stored or shared")):
+    p = _ensure(_pid, _title)
+    p["streams"] += [S("sysc", 6000, 80000)]
+    p["rule"] += _SYSC_RULE
+    p["trusted_base"] += _SYS_TB
+    p["trivial_labels"] = list(p.get("trivial_labels", [])) + ["no-origin", "unparsed"]
